@@ -248,6 +248,8 @@ fn history(c: &mut Ctx, rng: &mut impl Rng, ops: u64, root: &Path, seg: u64) {
                 let sm = c.open(&sstore);
                 let op: Value;
                 let mut guess_new = cur;
+                // names created / deleted / renamed in the scratch directory while the update runs
+                let watch = crate::fswatch::Watch::new(&scratch);
                 // real crash images: the scratch directory is copied at every verif-hooks crash point of the update
                 let hook_images: std::sync::Arc<std::sync::Mutex<Vec<(&'static str, PathBuf)>>> = Default::default();
                 {
@@ -297,6 +299,11 @@ fn history(c: &mut Ctx, rng: &mut impl Rng, ops: u64, root: &Path, seg: u64) {
                 }
                 drop(sm);
                 saorsa_core::verif_hooks::set_crash_callback(None);
+                if let Some(w) = &watch {
+                    let evs: Vec<Value> = w.drain().into_iter().map(|(k, n)| json!([k, n])).collect();
+                    c.t.ev(json!({"ev":"FsEvents","op":op,"store":"store.enc","events":evs}));
+                }
+                drop(watch);
                 let hooks: Vec<(&'static str, PathBuf)> = hook_images.lock().expect("hook images").clone();
                 for (point, hdir) in hooks {
                     let pr = probe(c, &hdir.join("store.enc"));
